@@ -978,6 +978,24 @@ class Interp:
             nb = VStruct(base.name, dict(base.fields))
             nb.fields[l["member"]] = v
             return self.assign_to(l["base"], nb, env, pc)
+        if l["k"] == "index" and l["index"]["k"] == "range":
+            # `buf[lo..hi] = bytes` (as produced by a model that fills a `&mut buf[lo..hi]` argument)
+            base, env, pc = self.eval(l["base"], env, pc)
+            ix = l["index"]
+            if not isinstance(base, VStr) or not isinstance(v, VStr) or ix["inclusive"]:
+                raise Unsupported("slice assignment form")
+            lo = hi = None
+            if ix["lo"] is not None:
+                lo, env, pc = self.eval(ix["lo"], env, pc)
+            if ix["hi"] is not None:
+                hi, env, pc = self.eval(ix["hi"], env, pc)
+            n = base.e.n
+            loe = lo.e if lo is not None else bv(0)
+            hie = hi.e if hi is not None else n
+            self.panic(z3.And(pc, z3.Or(ugt(loe, hie), ugt(hie, n))), "slice out of range at line %s" % l.get("line"))
+            self.panic(z3.And(pc, v.e.n != hie - loe), "slice assignment length mismatch at line %s" % l.get("line"))
+            new = bstr.concat(bstr.concat(bstr.substr(base.e, bv(0), loe), v.e, self.ob(pc)), bstr.substr(base.e, hie, n - hie), self.ob(pc))
+            return self.assign_to(l["base"], VStr(bstr.named(BStr(new.b, n), self.side, "spl")), env, pc)
         if l["k"] == "index":
             base, env, pc = self.eval(l["base"], env, pc)
             iv, env, pc = self.eval(l["index"], env, pc)
@@ -1439,10 +1457,15 @@ class Interp:
         for it in range(bound + 1):
             if z3.is_false(z3.simplify(pc)):
                 break
+            binds = {}
             if cond is not None:
                 if cond["k"] == "let_cond":
-                    raise Unsupported("while let")
-                cv, env, pc = self.eval(cond, env, pc)
+                    # `while let PAT = EXPR`: the loop runs while the pattern matches; its bindings live in the body only
+                    sv, env, pc = self.eval(cond["expr"], env, pc)
+                    c, binds = self.match_pat(cond["pat"], sv)
+                    cv = VBool(c)
+                else:
+                    cv, env, pc = self.eval(cond, env, pc)
                 exits.append((z3.And(pc, z3.Not(cv.e)), env))
                 pc_body = z3.simplify(z3.And(pc, cv.e))
             else:
@@ -1454,7 +1477,9 @@ class Interp:
                 self.unwind(pc_body, "loop at line %s needs more than %d iterations" % (e.get("line"), bound))
                 pc = z3.BoolVal(False)
                 break
-            env_n, pc_n, brk = self.run_loop_body(e["body"], dict(env), pc_body, env)
+            envb = dict(env)
+            envb.update(binds)
+            env_n, pc_n, brk = self.run_loop_body(e["body"], envb, pc_body, env)
             exits.extend(brk)
             env, pc = {n: env_n.get(n, env[n]) for n in env}, pc_n
         out, pco = self.merge_states(exits, env)
@@ -2102,6 +2127,7 @@ METHODS = {
     ("VRsplitHead", "next"): lambda I, s, a, pc, e: some(s.last),
     ("VCount", "count"): lambda I, s, a, pc, e: VInt(s.n),
     ("VStr", "len"): m_len_str,
+    ("VStr", "truncate"): lambda I, s_, a, pc, e: Effects(VUnit(), recv=VStr(BStr(s_.e.b, z3.If(ult(a[0].e, s_.e.n), a[0].e, s_.e.n)))),
     ("VStr", "try_into"): lambda I, s, a, pc, e: ok(s),
     ("VInt", "try_into"): lambda I, s, a, pc, e: ok(s),
     ("VStr", "as_mut_slice"): m_ident,
